@@ -902,6 +902,101 @@ def report_scen(ctx, s, what, rec=None):
     ctx.violation(what, rep)
 
 
+FAULT_SCRIPT = r'''
+import json, os, resource, shutil, signal, sys
+sys.path.insert(0, sys.argv[1])
+os.chdir(sys.argv[2])
+import in_toto.runlib as rl
+from in_toto.models._signer import load_crypto_signer_from_pkcs8_file
+from in_toto.models.metadata import Metadata
+signer = load_crypto_signer_from_pkcs8_file(sys.argv[3])
+kid = signer.public_key.keyid[:8]
+pub = signer.public_key.to_dict(); pub["keyid"] = signer.public_key.keyid
+out = []
+os.makedirs("src", exist_ok=True)
+def w(p, b):
+    with open(p, "wb") as f: f.write(b)
+for dsse in (False, True):
+    fmt = "dsse" if dsse else "metablock"
+    for f in os.listdir("."):
+        if f.endswith(".link") or f.endswith(".link-unfinished"): os.remove(f)
+    # ---- (1) the final link cannot be written completely (file size limit): stop fails, the preliminary link stays,
+    #          a retry after the fault is gone succeeds
+    w("src/a.c", b"1"); w("src/" + "n" * 40 + ".c", b"x" * 10)
+    rl.in_toto_record_start("lim", ["src"], signer=signer, use_dsse=dsse)
+    unf = ".lim.%s.link-unfinished" % kid
+    signal.signal(signal.SIGXFSZ, signal.SIG_IGN)
+    soft, hard = resource.getrlimit(resource.RLIMIT_FSIZE)
+    resource.setrlimit(resource.RLIMIT_FSIZE, (300, hard))
+    try:
+        try:
+            rl.in_toto_record_stop("lim", ["src"], signer=signer)
+            res = "returned"
+        except Exception as e:
+            res = type(e).__name__
+    finally:
+        resource.setrlimit(resource.RLIMIT_FSIZE, (soft, hard))
+    final = "lim.%s.link" % kid
+    complete = False
+    if os.path.exists(final):
+        try:
+            Metadata.load(final).verify_signature(pub); complete = True
+        except Exception:
+            complete = False
+    if not complete and not os.path.exists(unf):
+        out.append("%s: the final link could not be written completely (file size limit; stop %s) but the preliminary link is gone" % (fmt, res))
+    if res == "returned" and not complete:
+        out.append("%s: stop returned normally although the final link on disk is incomplete" % fmt)
+    if os.path.exists(unf):
+        if os.path.exists(final): os.remove(final)
+        try:
+            rl.in_toto_record_stop("lim", ["src"], signer=signer)
+            Metadata.load(final).verify_signature(pub)
+        except Exception as e:
+            out.append("%s: the retry after the fault was removed fails: %s" % (fmt, type(e).__name__))
+    # ---- (2) a copy of step A's preliminary link under step B's name: finishing B writes B's file and leaves A's alone
+    for f in os.listdir("."):
+        if f.endswith(".link") or f.endswith(".link-unfinished"): os.remove(f)
+    w("src/a.c", b"1")
+    rl.in_toto_record_start("A", ["src"], signer=signer, use_dsse=dsse)
+    shutil.copy(".A.%s.link-unfinished" % kid, ".B.%s.link-unfinished" % kid)
+    w("src/a.c", b"2")
+    rl.in_toto_record_stop("A", ["src"], signer=signer)
+    a_bytes = open("A.%s.link" % kid, "rb").read()
+    w("src/a.c", b"3")
+    try:
+        rl.in_toto_record_stop("B", ["src"], signer=signer)
+        resb = "returned"
+    except Exception as e:
+        resb = type(e).__name__
+    if open("A.%s.link" % kid, "rb").read() != a_bytes:
+        out.append("%s: finishing step B (from a copy of A's preliminary link) rewrote the finished link of step A" % fmt)
+    if resb == "returned" and not os.path.exists("B.%s.link" % kid):
+        out.append("%s: stop for step B returned normally but wrote no B.%s.link" % (fmt, kid))
+    if not os.path.exists("B.%s.link" % kid) and not os.path.exists(".B.%s.link-unfinished" % kid):
+        out.append("%s: step B has neither a final nor a preliminary link after stop (%s)" % (fmt, resb))
+print(json.dumps(out))
+'''
+
+
+def fault_history(ctx):
+    """two histories with explicit expectations, run in a process of their own (one lowers its file-size limit)"""
+    import subprocess
+    import sys
+    wd = os.path.join(ctx.work, "c12fault")
+    shutil.rmtree(wd, ignore_errors=True)
+    os.makedirs(wd)
+    script = os.path.join(ctx.work, "c12fault.py")
+    with open(script, "w") as f:
+        f.write(FAULT_SCRIPT)
+    keyfile = os.path.join(core.ROOT, "harness", "keys", "ed25519_0.pem")
+    p = subprocess.run([sys.executable, script, core.REPO, wd, keyfile], capture_output=True, text=True, timeout=300)
+    try:
+        return json.loads(p.stdout.strip().splitlines()[-1])
+    except (ValueError, IndexError):
+        return ["fault-history helper failed: rc %s %s" % (p.returncode, (p.stderr or p.stdout)[-400:])]
+
+
 def run(ctx):
     t0 = time.time()
     core.check_props(ctx, ["Props/C12.v"])
@@ -924,6 +1019,10 @@ def run(ctx):
     kn, kok, kdetail = core.kernel_sample(ctx, model, limit_chars=60000, max_cases=6)
     ctx.oblige("kernel-vs-extraction-sample", kok, kdetail)
     reported = 0
+    fh = fault_history(ctx)
+    for pr in fh[:3]:
+        ctx.violation("record start/stop: " + pr, {"kind": "fault_history", "what": pr})
+        reported += 1
     for s in scens:
         for p in s.po[:2]:
             if reported < 5:
@@ -986,6 +1085,15 @@ def run(ctx):
 
 
 def replay(ctx, obj):
+    if obj["replay"].get("kind") == "fault_history":
+        fh = fault_history(ctx)
+        for pr in fh:
+            print("  -> " + pr)
+        if fh:
+            print("VIOLATION property=C12 replay=%s" % obj.get("rerun", "").split()[-1])
+            return 1
+        print("agree")
+        return 0
     spec = obj["replay"]["spec"]
     gpg = hk.Gpg(ctx.work)
     gc = GpgCache()
